@@ -65,7 +65,8 @@ def run_property(P, tier, seed, replay=None):
     model_out = C.run_sharded(C.MODEL_RUN, fam, cases, pid + "_m")
     impl_out = C.run_sharded(C.KDB_RUN, fam, cases, pid + "_i", extra_env=env)
     by_id = {str(cid): lines for cid, lines in cases}
-    diffs = [cid for cid in by_id if model_out.get(cid) != impl_out.get(cid)]
+    same = getattr(P, "compare", lambda ls, m, i: m == i)
+    diffs = [cid for cid in by_id if not same(by_id[cid], model_out.get(cid), impl_out.get(cid))]
     # ---- 4. property monitor on every implementation trace
     fails = []
     for cid, lines in by_id.items():
@@ -113,7 +114,7 @@ def run_property(P, tier, seed, replay=None):
         cid = unexplained[0]
 
         def differs(ls):
-            return _one(C.KDB_RUN, fam, ls, pid + "_s", env) != _one(C.MODEL_RUN, fam, ls, pid + "_s")
+            return not same(ls, _one(C.MODEL_RUN, fam, ls, pid + "_s"), _one(C.KDB_RUN, fam, ls, pid + "_s", env))
         small = shrink(P, by_id[cid], differs)
         # search the neighbourhood of the differing case for a concrete property failure
         found = None
@@ -210,7 +211,7 @@ def _replay(P, path):
         print("monitor:", ms)
         print("VIOLATION property=%s replay=%s" % (pid, path))
         return 1
-    if o != m:
+    if not getattr(P, "compare", lambda ls, a, b: a == b)(lines, m, o):
         print("VIOLATION property=%s replay=%s no-failing-input-found" % (pid, path))
         return 1
     print("replay passes on the current tree")
